@@ -32,6 +32,9 @@ var fault struct {
 	count  atomic.Int64
 	failAt atomic.Int64
 	mode   atomic.Int32
+	// syncOnly: calls through VBG (background-capable wrapper) neither count
+	// nor fail - used where the planned fault must land in a synchronous call
+	syncOnly atomic.Bool
 }
 
 var errInjected = errors.New("injected fault (VFAIL)")
